@@ -178,6 +178,8 @@ class File(Component):
             self._close()
 
     def write(self, data):
+        if self._fd is not None and self.closed:
+            return  # late write after the close: the file is closed, keep no state for it
         if self._poller is not None and not self._poller.isWriting(self._fd):
             self._poller.addWriter(self, self._fd)
         self._buffer.append(data)
